@@ -11,7 +11,25 @@ From RV Require Import Base.Wire Base.Text Lang.Sig Gen.Signatures Lang.Bind Pro
 Import ListNotations.
 Local Open Scope nat_scope.
 
-(* every handler whose row carries no guard: whatever call Python accepts is rejected by the
+(* THE property, for every handler (constructor, method, Core helper) and every call shape, without any guard
+   (formerly only C08_bind_agrees_partial / C08_bind_agrees_guarded below: the LCD(...) row was excluded for
+   i2c_addr together with a parallel pin - F-C08-lcd-i2c-parallel-pins, repaired): whatever call Python accepts is
+   rejected by the transpiler or bound to the same arguments and the same default values *)
+Theorem C08_bind_agrees : forall (m : method) (sh : call_shape) (b : binding),
+  In m translated_methods ->
+  py_bind (sig_of m) sh = Some b ->
+  redu_bind m sh = Rejected \/ redu_bind m sh = Bound (restrict (device_params m) b).
+Proof. exact bind_agrees. Qed.
+Print Assumptions C08_bind_agrees.
+
+(* no row carries a guard: the guard mechanism of Lang/Bind.v is empty, every translated method is an agreeing one *)
+Theorem C08_no_guard_left :
+  agreeing_methods = translated_methods /\ (forall m sh, guard_ok (guard_of m) sh = true).
+Proof. exact (conj all_methods_agree guard_ok_always). Qed.
+Print Assumptions C08_no_guard_left.
+
+(* (kept, now corollaries of C08_bind_agrees: the statements over the guard mechanism, should a row ever need
+   a guard again) every handler whose row carries no guard: whatever call Python accepts is rejected by the
    transpiler or bound to the same arguments and the same default values *)
 Theorem C08_bind_agrees_partial : forall (m : method) (sh : call_shape) (b : binding),
   In m agreeing_methods ->
@@ -20,8 +38,7 @@ Theorem C08_bind_agrees_partial : forall (m : method) (sh : call_shape) (b : bin
 Proof. exact bind_agrees_partial. Qed.
 Print Assumptions C08_bind_agrees_partial.
 
-(* all handlers, inside the explicit guard of the one row that still disagrees with Python
-   (LCD(...) with i2c_addr together with a parallel pin; RGBLed.on carries no guard any more) *)
+(* all handlers, inside the explicit guards of Lang/Bind.v (none is left: neither RGBLed.on nor LCD(...) carries one) *)
 Theorem C08_bind_agrees_guarded : forall (m : method) (sh : call_shape) (b : binding),
   In m translated_methods ->
   guard_ok (guard_of m) sh = true ->
@@ -47,14 +64,39 @@ Theorem C08_RGBLed_on_no_disagreement : forall (sh : call_shape) (b b' : binding
 Proof. exact rgb_on_no_disagreement. Qed.
 Print Assumptions C08_RGBLed_on_no_disagreement.
 
-(* LCD(rs=.., i2c_addr=..): Python binds rs, the I2C branch of the handler never reads it *)
-Theorem C08_LCD_init_refuted :
-  exists sh b b',
-    py_bind (sig_of (T "LCD.__init__")) sh = Some b /\
-    redu_bind (T "LCD.__init__") sh = Bound b' /\
-    b' <> restrict (device_params (T "LCD.__init__")) b.
-Proof. exact lcd_init_refuted. Qed.
-Print Assumptions C08_LCD_init_refuted.
+(* LCD(...) (repaired; formerly C08_LCD_init_refuted: LCD(rs=.., i2c_addr=..) - Python binds rs, the I2C branch of the
+   handler never read it).  The literal negation of that refutation: no call Python accepts is bound differently ... *)
+Theorem C08_LCD_init_no_disagreement : forall (sh : call_shape) (b b' : binding),
+  py_bind (sig_of (T "LCD.__init__")) sh = Some b ->
+  redu_bind (T "LCD.__init__") sh = Bound b' ->
+  b' = restrict (device_params (T "LCD.__init__")) b.
+Proof. exact lcd_init_no_disagreement. Qed.
+Print Assumptions C08_LCD_init_no_disagreement.
+
+(* ... because the I2C branch now rejects every parallel pin (rs, en, d4, d5, d6, d7, rw), whatever else is passed
+   and in whatever order, and every positional argument (the parallel branch reads positions as pins) *)
+Theorem C08_LCD_i2c_rejects_parallel_pins : forall (sh : call_shape) (k : text),
+  In (T "i2c_addr") (kws sh) -> In k lcd_parallel_pins -> In k (kws sh) ->
+  redu_bind (T "LCD.__init__") sh = Rejected.
+Proof. exact lcd_i2c_rejects_parallel. Qed.
+Print Assumptions C08_LCD_i2c_rejects_parallel_pins.
+
+Theorem C08_LCD_i2c_rejects_positionals : forall (sh : call_shape),
+  In (T "i2c_addr") (kws sh) -> 0 < npos sh -> redu_bind (T "LCD.__init__") sh = Rejected.
+Proof. exact lcd_i2c_rejects_positional. Qed.
+Print Assumptions C08_LCD_i2c_rejects_positionals.
+
+(* the former witness LCD(rs=31, i2c_addr=39) is accepted by Python and rejected by the transpiler; so are rw and a
+   positional pin; the I2C branch still binds its own parameters and the parallel branch its pins *)
+Example C08_LCD_init_witness_rejected :
+  py_bind (sig_of (T "LCD.__init__")) lcd_init_witness <> None /\
+  redu_bind (T "LCD.__init__") lcd_init_witness = Rejected /\
+  redu_bind (T "LCD.__init__") (mk_shape 0 [T "i2c_addr"; T "rw"]) = Rejected /\
+  redu_bind (T "LCD.__init__") (mk_shape 1 [T "i2c_addr"]) = Rejected /\
+  (exists b, redu_bind (T "LCD.__init__") (mk_shape 0 [T "backlight_pin"; T "i2c_addr"; T "rows"]) = Bound b) /\
+  (exists b, redu_bind (T "LCD.__init__") (mk_shape 0 [T "rs"; T "en"; T "d4"; T "d5"; T "d6"; T "d7"; T "rw"]) = Bound b).
+Proof. exact lcd_init_witness_rejected. Qed.
+Print Assumptions C08_LCD_init_witness_rejected.
 
 (* keyword order is irrelevant to both binders *)
 Theorem C08_py_bind_keyword_order : forall sg n ks ks',
@@ -106,7 +148,7 @@ Print Assumptions C08_table_has_signatures.
 
 (* non-vacuity: rgb.fade(r, blue=.., steps=.., green=..) is accepted by Python and bound
    identically by the transpiler; too many positionals / positional+keyword are rejected by
-   Python; the guarded LCD row still has accepted, bound shapes inside its guard *)
+   Python; the LCD row (no guard any more) has accepted, bound shapes *)
 Example C08_nonvacuous_binding :
   let sh := mk_shape 1 [T "blue"; T "steps"; T "green"] in
   let b := [(T "red", STag (TPos 0)); (T "green", STag (TKw (T "green"))); (T "blue", STag (TKw (T "blue")));
@@ -160,13 +202,13 @@ Print Assumptions C08_nonvacuous_guard.
    with hand-made IR nodes: presence test of every field and the places its value is written to.
    ====================================================================================== *)
 
-(* from the call to the firmware: whatever call Python accepts (inside the guard of Bind.v) is rejected, or bound
+(* from the call to the firmware: whatever call Python accepts (any handler, any shape: the call-shape guard of Bind.v
+   is gone; what makes this _partial is the emitter-stage field guard param_guarded) is rejected, or bound
    like Python AND every bound value - explicit (falsy constants 0 / 0.0 / False / "" and run-time expressions
    included) or a non-None default - is written into the C++ as the argument of its parameter, while a
    parameter Python binds to None (omitted None-default, or an explicit None) never appears as another constant *)
 Theorem C08_firmware_args_are_pythons_partial : forall (m : method) (sh : call_shape) (b : binding) (val : tag -> fval),
   In m translated_methods ->
-  guard_ok (guard_of m) sh = true ->
   py_bind (sig_of m) sh = Some b ->
   redu_bind m sh = Rejected \/
   (redu_bind m sh = Bound (restrict (device_params m) b) /\
@@ -174,7 +216,7 @@ Theorem C08_firmware_args_are_pythons_partial : forall (m : method) (sh : call_s
      In (p, s) b /\
      (value val s <> FConst CNone -> fw_arg m val p s = AGiven (value val s)) /\
      (value val s = FConst CNone -> forall c, c <> CNone -> fw_arg m val p s <> AGiven (FConst c))).
-Proof. exact firmware_args_are_pythons_partial. Qed.
+Proof. exact (fun m sh b val Hm Hpy => firmware_args_are_pythons_partial m sh b val Hm (guard_ok_always m sh) Hpy). Qed.
 Print Assumptions C08_firmware_args_are_pythons_partial.
 
 (* omitted <> explicit falsy, per method parameter: an argument passed explicitly with ANY constant other than None
